@@ -6,7 +6,7 @@ From Coq Require Import String Lia.
 From PS Require Import Base.Bytes Base.Result Model.Converter Model.Parser Model.ParserInst Model.VarList.
 From PS Require Import Proofs.ParserProps Proofs.ParserChecks Proofs.VarListProps Spec.RespFormats Gen.Tables Gen.Parsers.
 From Coq Require Import ZArith.
-From PS Require Import Model.Py Proofs.PyLemmas Proofs.PyParsers Gen.PyFuncs.
+From PS Require Import Model.Py Proofs.PyLemmas Proofs.PyParsers Proofs.PyParsersRES Proofs.PyParsersRES2 Gen.PyFuncs.
 Open Scope string_scope.
 Open Scope N_scope.
 
@@ -145,6 +145,25 @@ Theorem C04_py_transport_id_fc_sas : forall tid, length tid = 24%nat ->
   (lookup "protocol_id" (tid_fields tid) = Some (PInt 6) ->
      tid_decodes tid (PDict (tid_fields tid ++ [("sas_address", PBytes (firstn 8 (skipn 4 tid)))])%list)).
 Proof. intros tid Hl. split; intros Hp; [exact (tid_decodes_fc tid Hl Hp)|exact (tid_decodes_sas tid Hl Hp)]. Qed.
+
+(* READ ELEMENT STATUS: header, any number of element status pages (own flags, descriptor length, descriptor count), anything.
+   Exactly those pages with exactly their descriptors; volume tags where the page announces them (PVOLTAG / AVOLTAG, all four
+   combinations); the fields of the page's element type. *)
+Theorem C04_py_read_element_status_exact : forall (hdr : bytes) (pages : list espage) (trail : bytes) f,
+  length hdr = 8%nat -> Forall page_ok pages ->
+  Z.of_N (ba_to_int (skipn 5 hdr)) = Z.of_nat (length (concat (map page_bytes pages))) ->
+  (2 * length (concat (map page_bytes pages)) + 4 <= f)%nat ->
+  call_fun all_tables py_program f RES [PBytes (hdr ++ concat (map page_bytes pages) ++ trail)%list] =
+  Ok (PDict (dict_update (res_header hdr) [("element_status_pages", PList (map page_dict pages))])).
+Proof. exact read_element_status_exact. Qed.
+
+(* non-vacuity: a storage page (type 2) with primary volume tags and two 52-byte descriptors meets page_ok *)
+Example C04_example_res_page_ok :
+  page_ok (mkEP [2; 0x80; 0; 52; 0; 0; 0; 104] (mkPF true false 2) 52 [zeros 52; (1 :: 2 :: zeros 50)%list]).
+Proof.
+  unfold page_ok. cbn [ep_hdr ep_flags ep_E ep_descs pf_pv pf_av pf_ty].
+  repeat split; try (vm_compute; reflexivity); try (vm_compute; repeat constructor).
+Qed.
 
 (* non-vacuity: a two-group response (2 ports, 0 ports) with trailing bytes, run through the regenerated body *)
 Example C04_example_py_rtpg :
